@@ -22,6 +22,7 @@ func rulesC18(c *Ctx) {
 		"C18 (attestation quotes accepted only as signed and within policy) — decided, with the package-level unsafe* switches assumed false: Quote.Verify can return a verified quote only through the full obligation tree — policy not disabled; debug/production mode match; TDX policy present and satisfied for TDX; quote signature verification, which requires: PCK certificate chain of length 3 verified to the Intel trust roots at the given time with the expected root, FMSPC extracted, QE report signature under the PCK key over the raw QE report, QE report data = SHA-256(attestation key ‖ authentication data) followed by zeros, TCB bundle present and verified (TCB signing chain of length 2 to the Intel roots at the given time; QE identity and TCB info each signature-verified over their raw JSON, decoded from those same bytes, and validated for id/version/issue date/validity period/evaluation number/whitelist/blacklist; QE identity matched against the QE report; FMSPC equal to the PCK's; TCB level status acceptable), and the ECDSA quote signature under the attestation key over header.Raw()‖reportBody.Raw(); the identity and report data returned are read from the same report body that was signed; the unsafe switches are only written by their setters, which are only called from debug/test tooling.",
 		"NOT decided: correctness of x509/ECDSA/SHA-256, time-window arithmetic at the boundaries, TCB level matching logic (getTCBLevel), TDX module policy semantics.")
 	c18Round2(c)
+	c18Round3(c)
 	c.AssumeFalse = `^\*global:common/sgx/pcs\.unsafe(SkipVerify|LaxVerify)$`
 	ix := c.P.BuildIndex()
 	spec := map[string][]c18ob{
@@ -92,7 +93,7 @@ func rulesC18(c *Ctx) {
 			{cond: `^!time\.\(Time\)\.After\(.*Parse\(.*\)#0,param:ts\)$`, name: "issue date not in the future", why: "validity window start"},
 			{cond: ` <= \(\(int64\(\*param:policy\.TCBValidityPeriod\) \* 24\) \* 3600000000000\)$`, name: "not expired", why: "validity window end"},
 			{cond: `^\*param:ti\.TCBEvaluationDataNumber >= \*param:policy\.MinTCBEvaluationDataNumber$`, name: "evaluation number >= policy minimum", why: "policy"},
-			{cond: `^!slices\.Contains\(\*param:policy\.FMSPCBlacklist,\*param:ti\.FMSPC\)$`, name: "FMSPC not blacklisted", why: "policy"},
+			{cond: `^!(slices\.Contains\(\*param:policy\.FMSPCBlacklist,\*param:ti\.FMSPC\)|common/sgx/pcs\.containsFMSPC\(\*param:policy\.FMSPCBlacklist,\*param:ti\.FMSPC\)|slices\.ContainsFunc\(\*param:policy\.FMSPCBlacklist,.*\))$`, name: "FMSPC not blacklisted", why: "policy"},
 		},
 		pkPCS + ".(*QEIdentity).validate": {
 			{cond: `^\*param:qe\.Version == \d+$`, name: "version", why: "known format"},
